@@ -77,12 +77,16 @@ class Harness:
         self.profile_factory = profile_factory
         self.sample_error = sample_error
         self.calls = []
+        self.dump_params = {}
+        self.seen_profile = None
         self.sym_params = {}
         self.records = {"cn": [], "major": {}, "minor": {}}
 
     # ---- stage stubs
     def estimate_cn(self, gene, profile, coverage, solver=None, debug=None):
         self.calls.append("cn")
+        self.seen_profile = {k: v for k, v in profile.__dict__.items()
+                             if k not in ("name", "data", "cn_region", "neutral_value")}
         out = []
         for i, names in enumerate(self.plan["cn"]):
             s = CNSolution(gene, self.score("cn", i), list(names))
@@ -141,6 +145,8 @@ class Harness:
         h = self
         params = dict(params or {})
         params["gap"] = gap
+        # the original run's parameters are what the pickled profile carries
+        self.dump_params = {k: v for k, v in params.items() if not symx.is_sym(v)}
         for k_ in list(params):
             if symx.is_sym(params[k_]):
                 self.sym_params[k_] = params.pop(k_)
@@ -151,11 +157,17 @@ class Harness:
                 if h.sample_error:
                     raise AldyException(h.sample_error)
                 self.name = "sample"
-                if profile is None:
-                    # what Sample._load_dump leaves behind: the pickled profile with the
-                    # debug switches and min_avg_coverage reset
-                    profile = FakeProfile("dumped", GRange("22", 1, 100), {"x": 1},
-                                          neutral_value=1.0)
+                if h.kind == "dump":
+                    # what Sample._load_dump leaves behind whatever profile it was given:
+                    # the pickled profile of the original run with the three debug
+                    # switches and min_avg_coverage reset
+                    cnsol = profile.cn_solution if profile is not None else None
+                    profile = FakeProfile("dumped", None if cnsol else GRange("22", 1, 100),
+                                          {"x": 1}, neutral_value=1.0, cn_solution=cnsol,
+                                          **h.dump_params)
+                    profile.display_format = False
+                    profile.debug_probe = ""
+                    profile.debug_novel = False
                     profile.min_avg_coverage = 2.0
                 self.profile = profile
                 self.is_long_read = False
